@@ -965,6 +965,35 @@ def ob_locate_dense(et, organised, S=1.0):
     return Verdict(DISCHARGED, backend="native gmsh mesh", detail=f"{r['nq']} points, worst {max(r['worst_single'], r['worst_batch']):.1e}")
 
 
+def ob_locate_pixels(et):
+    """a batch of query points with integer coordinates (a pixel grid, as digital image correlation hands over): every grid point of the domain -- boundary included, grid listed
+    row by row or column by column, origin at 0 or elsewhere -- is located and gives the value the same points give as floats"""
+    import contextlib, io
+    from EasyFEA import ElemType
+    from EasyFEA.Geoms import Domain, Point
+    f = lambda X_: 1 + 2 * X_[:, 0] - 3 * X_[:, 1]
+    n = 0
+    for x0 in (0, 3):
+        with contextlib.redirect_stdout(io.StringIO()):
+            mesh = Domain(Point(x0, x0), Point(x0 + 4, x0 + 4), 1.3).Mesh_2D([], ElemType[et])
+        nodal = f(np.asarray(mesh.coord))
+        for indexing in ("xy", "ij"):
+            xs, ys = np.meshgrid(np.arange(x0, x0 + 5), np.arange(x0, x0 + 5), indexing=indexing)
+            pts = np.stack([xs.ravel(), ys.ravel(), 0 * xs.ravel()], 1)
+            v_int = np.asarray(mesh.Evaluate_dofsValues_at_coordinates(pts, nodal)).ravel()
+            v_flt = np.asarray(mesh.Evaluate_dofsValues_at_coordinates(pts.astype(float), nodal)).ravel()
+            n += 1
+            e_int, e_flt = np.abs(v_int - f(pts)), np.abs(v_flt - f(pts))
+            if e_flt.max() > 1e-6:
+                raise Unsupported("the float queries themselves fail")
+            if e_int.max() > 1e-6:
+                wrong = pts[e_int > 1e-6][:4, :2].tolist()
+                raise Refuted(f"{et}: {int((e_int > 1e-6).sum())} of 25 integer grid points of [{x0},{x0 + 4}]^2 (grid listed with indexing='{indexing}') are evaluated wrongly (e.g. {wrong}, "
+                              f"max error {e_int.max():.3g}); the same points as floats are exact", cex=dict(elemType=et, origin=x0, indexing=indexing, points=wrong), signature=f"locate:pixels:{et}",
+                              replay=dict(confirmed=True, wrong=int((e_int > 1e-6).sum())))
+    return Verdict(DISCHARGED, backend="native gmsh mesh", sub=n)
+
+
 def ob_locate_warped(et):
     """general hexahedra / prisms whose faces are NOT planar (interior nodes of a structured box mesh moved at random; the box is still tiled exactly and the Jacobians stay
     positive): every interior point is located and a linear field is reproduced."""
@@ -1223,6 +1252,9 @@ def build(tier, seed):
         obs.append(Ob(f"C08.locate.scaled.{et}.L{S:g}", ob_locate_dense, (et, organised, S), "X", (f"{GE}::_GroupElem.Get_pointsInElem", f"{GE}::_GroupElem._Get_coord_Near"),
                       bound="one box mesh of side L (64-800 elements), up to 350 special query points + 800 random interior points", timeout=1200,
                       clause="point location does not depend on the unit of length: points on edges / diagonals / centres of a mesh of side L are located, a linear field is reproduced"))
+    for et in ("TRI3", "QUAD4", "TRI6"):
+        obs.append(Ob(f"C08.locate.pixels.{et}", ob_locate_pixels, (et,), "X", (f"{GE}::_GroupElem._Get_coord_Near", "EasyFEA/FEM/_mesh.py::Mesh.Evaluate_dofsValues_at_coordinates"),
+                      bound="5 x 5 integer grids on a 4 x 4 domain, two origins, two listing orders", clause="integer-typed query points are located like the same points given as floats", timeout=600))
     for et in ("HEXA8", "PRISM6"):
         obs.append(Ob(f"C08.locate.warped.{et}", ob_locate_warped, (et,), "X", (f"{GE}::_GroupElem.Get_pointsInElem",), bound="one 64 / 128-element box mesh with perturbed interior nodes, 1500 points", timeout=1200,
                       clause="points inside general elements with non-planar faces are located; a linear field is reproduced"))
